@@ -2,9 +2,9 @@
 package props
 
 import (
-	"runtime"
 	"fmt"
 	"os"
+	"runtime"
 	"strings"
 	"testing"
 
@@ -107,7 +107,6 @@ func topFrame(stack string) string {
 	}
 	return "unknown"
 }
-
 
 // totalAlloc is the number of bytes the process has allocated so far (monotonic).
 func totalAlloc() uint64 {
